@@ -15,10 +15,14 @@ Reading guide.
 * `calls` ranges over all finite sequences of `Rewind / Next / Seek k`.  `Valid / Key / Value` do not
   change the state (`IndexIterator.valid/key/value` are functions of the state), so they are the
   observation `Obs` taken on the fresh iterator and after every call (`trace`).
-* `Abs.admissible` is the decidable side condition of the property: the lower-bound index of every
-  `Seek` target is not below the abstract cursor (always true at index 0, i.e. on a fresh or just
-  rewound iterator).  Backward seeks over keys already passed are not claimed; `backward_seek_differs`
-  shows a concrete sequence where the Go behaviour (as modelled) differs from the abstract cursor.
+* `Seek` is forward-only, in the Go code (`IndexIterator.Seek` returns at once when the target lies
+  before the current key in iteration order, and on an exhausted iterator) and in the specification
+  (`Abs.seek`: move to the lower-bound index of the target unless that is below the cursor).  So no
+  side condition on the call sequence is needed: the theorems hold for *all* sequences.
+  `C10_seek_absolute_when_admissible` records that nothing claimed earlier is lost: on the call
+  sequences whose every `Seek` target is at or ahead of the cursor (`Abs.admissible`; always the case
+  on a fresh or just rewound iterator) `Seek k` is the absolute positioning `Abs.seekTo` — the first
+  item `≥ k` (`≤ k` reversed).
 * Snapshot stability ("later writes do not disturb it") is by construction of the cursors: they are
   created from `idx` and no call reads the live index again (map / skip list: copied slice; B-tree:
   copy-on-write clone, trusted).
@@ -27,27 +31,27 @@ namespace XixiKV.C10
 open XixiKV.Index XixiKV.ShardIter
 
 /-- **C10_cursor** (DB-level iterator, `DB.NewIterator`): for every shard function, number of
-    shards, index type, direction, prefix, sorted snapshot and admissible call sequence, the sharded
+    shards, index type, direction, prefix, sorted snapshot and call sequence, the sharded
     iterator shows exactly what the abstract cursor over the sorted, prefix-filtered snapshot shows —
     same `Valid`, `Key`, `Value` on the fresh iterator and after every call. -/
 theorem C10_cursor {V : Type} (shardOf : Key → Nat) (n : Nat) (typ : IndexType) (rev : Bool) (pre : Key)
     (idx : List (Key × V)) (hsorted : idx.Pairwise (fun a b => keyLt a.1 b.1 = true))
     (hshard : ∀ x ∈ idx, shardOf x.1 < n)
-    (calls : List Call) (hadm : (Abs.new rev pre idx).admissible calls = true) :
+    (calls : List Call) :
     (DBIter.new typ rev pre (shardsOf shardOf n idx)).trace calls = (Abs.new rev pre idx).trace calls :=
-  trace_db (DSim.new typ rev pre shardOf n (sorted_of_pairwise hsorted) hshard) calls hadm
+  trace_db (DSim.new typ rev pre shardOf n (sorted_of_pairwise hsorted) hshard) calls
 
 /-- **C10_cursor_index**: the same for the index-level iterator `ShardedIndex.Iterator`
     (no prefix; what `ListKeys`, `Fold` and the `index` package tests use). -/
 theorem C10_cursor_index {V : Type} (shardOf : Key → Nat) (n : Nat) (typ : IndexType) (rev : Bool)
     (idx : List (Key × V)) (hsorted : idx.Pairwise (fun a b => keyLt a.1 b.1 = true))
     (hshard : ∀ x ∈ idx, shardOf x.1 < n)
-    (calls : List Call) (hadm : (Abs.newIndex rev idx).admissible calls = true) :
+    (calls : List Call) :
     (IndexIterator.create typ rev (shardsOf shardOf n idx)).trace calls =
       (Abs.newIndex rev idx).trace calls :=
-  trace_index (Sim.create typ rev shardOf n (sorted_of_pairwise hsorted) hshard) calls hadm
+  trace_index (Sim.create typ rev shardOf n (sorted_of_pairwise hsorted) hshard) calls
 
-/-- **C10_complete_sorted**: from any state reached by an admissible call sequence (fresh,
+/-- **C10_complete_sorted**: from any state reached by any call sequence (fresh,
     mid-way, exhausted), `Rewind` followed by the loop `for ; Valid(); Next()` yields exactly the
     snapshot items whose key has the prefix, with the value they had at creation, in iteration order;
     that list is strictly ordered (each key once); and the loop stops after exactly that many rounds
@@ -55,13 +59,13 @@ theorem C10_cursor_index {V : Type} (shardOf : Key → Nat) (n : Nat) (typ : Ind
 theorem C10_complete_sorted {V : Type} (shardOf : Key → Nat) (n : Nat) (typ : IndexType) (rev : Bool)
     (pre : Key) (idx : List (Key × V)) (hsorted : idx.Pairwise (fun a b => keyLt a.1 b.1 = true))
     (hshard : ∀ x ∈ idx, shardOf x.1 < n)
-    (calls : List Call) (hadm : (Abs.new rev pre idx).admissible calls = true)
+    (calls : List Call)
     (fuel : Nat) (hfuel : ((iterOrder rev idx).filter (fun x => hasPrefix pre x.1)).length ≤ fuel) :
     (((DBIter.new typ rev pre (shardsOf shardOf n idx)).run calls).rewind.collect fuel
         = ((iterOrder rev idx).filter (fun x => hasPrefix pre x.1)).map (fun x => (some x.1, some x.2)))
     ∧ ((iterOrder rev idx).filter (fun x => hasPrefix pre x.1)).Pairwise
         (fun a b => before rev a.1 b.1 = true) :=
-  ⟨complete_db (DSim.new typ rev pre shardOf n (sorted_of_pairwise hsorted) hshard) calls hadm fuel hfuel,
+  ⟨complete_db (DSim.new typ rev pre shardOf n (sorted_of_pairwise hsorted) hshard) calls fuel hfuel,
    ((sorted_of_pairwise hsorted).iterOrder (rev := rev)).filter _⟩
 
 /-- **C10_listkeys**: the `ListKeys` / `Fold` loop `for it.Rewind(); it.Valid(); it.Next()` over
@@ -77,7 +81,7 @@ theorem C10_listkeys {V : Type} (shardOf : Key → Nat) (n : Nat) (typ : IndexTy
 
 /-- **C10_index_type_irrelevant**: the cursor implementation (B-tree cursor with its `isIterable`
     early returns vs. the array cursors of map / skip list) cannot be observed through the sharded
-    iterator by *any* call sequence — admissible or not, index level or DB level. -/
+    iterator by *any* call sequence, index level or DB level. -/
 theorem C10_index_type_irrelevant {V : Type} (typ typ' : IndexType) (rev : Bool) (pre : Key)
     (shards : List (List (Key × V)))
     (hsorted : ∀ s ∈ shards, s.Pairwise (fun a b => keyLt a.1 b.1 = true)) (calls : List Call) :
@@ -85,6 +89,35 @@ theorem C10_index_type_irrelevant {V : Type} (typ typ' : IndexType) (rev : Bool)
     (DBIter.new typ rev pre shards).trace calls = (DBIter.new typ' rev pre shards).trace calls :=
   ⟨(ItSame.create typ typ' rev (fun s hs => sorted_of_pairwise (hsorted s hs))).trace calls,
    (DSame.new typ typ' rev pre (fun s hs => sorted_of_pairwise (hsorted s hs))).trace calls⟩
+
+/-- **C10_seek_absolute_when_admissible**: what was claimed before `Seek` became forward-only still
+    holds.  On every call sequence all of whose `Seek` targets are at or ahead of the cursor
+    (`Abs.admissible`: the lower-bound index of the target is not below the cursor; always so on a
+    fresh or just rewound iterator) the sharded iterator shows what the abstract cursor with the
+    *absolute* positioning `Abs.seekTo` shows: `Seek k` lands on the first item `≥ k` (`≤ k` reversed). -/
+theorem C10_seek_absolute_when_admissible {V : Type} (shardOf : Key → Nat) (n : Nat) (typ : IndexType)
+    (rev : Bool) (pre : Key)
+    (idx : List (Key × V)) (hsorted : idx.Pairwise (fun a b => keyLt a.1 b.1 = true))
+    (hshard : ∀ x ∈ idx, shardOf x.1 < n)
+    (calls : List Call) :
+    ((Abs.new rev pre idx).admissible calls = true →
+      (DBIter.new typ rev pre (shardsOf shardOf n idx)).trace calls = (Abs.new rev pre idx).traceTo calls) ∧
+    ((Abs.newIndex rev idx).admissible calls = true →
+      (IndexIterator.create typ rev (shardsOf shardOf n idx)).trace calls =
+        (Abs.newIndex rev idx).traceTo calls) :=
+  ⟨fun hadm => by rw [C10_cursor shardOf n typ rev pre idx hsorted hshard calls, Abs.trace_eq_traceTo calls hadm],
+   fun hadm => by rw [C10_cursor_index shardOf n typ rev idx hsorted hshard calls, Abs.trace_eq_traceTo calls hadm]⟩
+
+/-- **C10_seek_never_backwards**: a `Seek` whose target lies before the current key in iteration
+    order, or on an exhausted iterator, leaves the abstract cursor — hence, by `C10_cursor`, the
+    sharded iterator's observable state — where it is; every other `Seek` is the absolute positioning. -/
+theorem C10_seek_never_backwards {V : Type} (a : Abs V) (k : Key) :
+    (¬ a.i < a.A.length → a.seek k = a) ∧
+    (∀ h : a.i < a.A.length, before a.reverse k a.A[a.i].1 = true → a.seek k = a) ∧
+    (∀ h : a.i < a.A.length, a.A.Pairwise (fun x y => before a.reverse x.1 y.1 = true) →
+      before a.reverse k a.A[a.i].1 = false → a.seek k = a.seekTo k ∧ a.i ≤ (a.seekTo k).i) :=
+  ⟨Abs.seek_exhausted k, fun h hb => Abs.seek_passed h hb,
+   fun h hs hb => ⟨(Abs.seek_ahead hs h hb).2, (Abs.seek_ahead hs h hb).1⟩⟩
 
 /-! ## the hypotheses are satisfiable: a concrete instance (4 shards, 7 keys, prefix `b`) -/
 
@@ -132,47 +165,62 @@ example : (IndexIterator.create .skiplist false (shardsOf exShard 4 exIdx)).rewi
 /-- the theorems applied to the instance (all hypotheses discharged by evaluation) -/
 example : (DBIter.new .btree false (k [98]) (shardsOf exShard 4 exIdx)).trace exCalls =
     (Abs.new false (k [98]) exIdx).trace exCalls :=
-  C10_cursor exShard 4 .btree false (k [98]) exIdx (by decide) (by decide) exCalls (by decide)
+  C10_cursor exShard 4 .btree false (k [98]) exIdx (by decide) (by decide) exCalls
 example : (IndexIterator.create .hashmap true (shardsOf exShard 4 exIdx)).trace [.seek (k [98, 49, 53]), .next] =
     (Abs.newIndex true exIdx).trace [.seek (k [98, 49, 53]), .next] :=
-  C10_cursor_index exShard 4 .hashmap true exIdx (by decide) (by decide) _ (by decide)
+  C10_cursor_index exShard 4 .hashmap true exIdx (by decide) (by decide) _
 example := C10_complete_sorted exShard 4 .skiplist true (k [98]) exIdx (by decide) (by decide)
-  [.next, .seek (k [98, 49, 53]), .next, .next, .rewind, .next] (by decide) 3 (by decide)
+  [.next, .seek (k [98, 49, 53]), .next, .next, .rewind, .next] 3 (by decide)
 example := C10_listkeys exShard 4 .btree false exIdx (by decide) (by decide) 7 (by decide)
 example := C10_index_type_irrelevant .btree .hashmap true (k [98]) (shardsOf exShard 4 exIdx) (by decide)
   [.next, .next, .seek (k [99]), .seek (k [97])]
 
-/-! ## why backward seeks are excluded
+/-! ## backward seeks: the sharded iterator and the abstract cursor agree
 
 Keys `a … f` on 4 shards as the real hash places them (`xxhash & 3`: `a b ↦ 3`, `c f ↦ 1`,
-`d e ↦ 0`; reproduced on the Go `ShardedIndex` for all three index types).  After two `Next` the
-cursor of shard 3 is exhausted and parked; `Seek a` re-seeks only the cursors in the heap and lands
-on `c`, whereas the abstract cursor (and a fresh or rewound iterator) lands on `a`.  After one
-`Next` only, the same `Seek a` does find `a` (shard 3 still has `b` ahead): the outcome depends on
-the history.  Second instance: `Seek` on an exhausted iterator is a no-op (`!it.Valid()` early
-return), so once a `Seek` overshoots the last key every further `Seek` is ignored until `Rewind`. -/
+`d e ↦ 0`).  After two `Next` the cursor of shard 3 is exhausted and parked.  Before the repair
+`Seek a` re-seeked only the cursors in the heap and landed on `c` with 4 shards but on `a` with one
+shard, and after one `Next` only it found `a` with 4 shards too: the outcome depended on the history
+and on the shard count.  Now `Seek a` lies before the current key `c` and is ignored — by the
+sharded iterator for every shard count, and by the abstract cursor.  Second instance: `Seek` on an
+exhausted iterator is ignored on both sides. -/
 
 def bwIdx : List (Key × Nat) :=
   [(k [97], 1), (k [98], 2), (k [99], 3), (k [100], 4), (k [101], 5), (k [102], 6)]
 def bwShard (x : Key) : Nat :=
   if x = k [97] ∨ x = k [98] then 3 else if x = k [99] ∨ x = k [102] then 1 else 0
 
-example :
+/-- the formerly differing sequence agrees: 4 shards, 1 shard, and the abstract cursor -/
+theorem backward_seek_agrees :
     (Abs.newIndex false bwIdx).admissible [.next, .next, .seek (k [97])] = false ∧
     (IndexIterator.create .btree false (shardsOf bwShard 4 bwIdx)).trace [.next, .next, .seek (k [97])]
       = [ob [97] 1, ob [98] 2, ob [99] 3, ob [99] 3] ∧
+    (IndexIterator.create .btree false (shardsOf (fun _ => 0) 1 bwIdx)).trace [.next, .next, .seek (k [97])]
+      = [ob [97] 1, ob [98] 2, ob [99] 3, ob [99] 3] ∧
     (Abs.newIndex false bwIdx).trace [.next, .next, .seek (k [97])]
-      = [ob [97] 1, ob [98] 2, ob [99] 3, ob [97] 1] ∧
+      = [ob [97] 1, ob [98] 2, ob [99] 3, ob [99] 3] ∧
     (IndexIterator.create .btree false (shardsOf bwShard 4 bwIdx)).trace [.next, .seek (k [97])]
-      = [ob [97] 1, ob [98] 2, ob [97] 1] := by
+      = [ob [97] 1, ob [98] 2, ob [98] 2] ∧
+    (Abs.newIndex false bwIdx).trace [.next, .seek (k [97])] = [ob [97] 1, ob [98] 2, ob [98] 2] := by
   decide
 
-example :
+/-- `Seek` on an exhausted iterator (reverse, skip list): ignored on both sides -/
+theorem exhausted_seek_agrees :
     (Abs.newIndex true exIdx).admissible [.seek (k [97]), .seek (k [98, 49, 53])] = false ∧
     (IndexIterator.create .skiplist true (shardsOf exShard 4 exIdx)).trace [.seek (k [97]), .seek (k [98, 49, 53])]
       = [ob [99] 7, inv, inv] ∧
-    (Abs.newIndex true exIdx).trace [.seek (k [97]), .seek (k [98, 49, 53])] = [ob [99] 7, inv, ob [98, 49] 4] := by
+    (Abs.newIndex true exIdx).trace [.seek (k [97]), .seek (k [98, 49, 53])] = [ob [99] 7, inv, inv] := by
   decide
+
+/-- the theorems on these non-admissible sequences -/
+example := C10_cursor_index bwShard 4 .btree false bwIdx (by decide) (by decide) [.next, .next, .seek (k [97])]
+example := C10_cursor_index exShard 4 .skiplist true exIdx (by decide) (by decide)
+  [.seek (k [97]), .seek (k [98, 49, 53])]
+/-- and on an admissible one the absolute positioning is what is seen -/
+example : (DBIter.new .btree false (k [98]) (shardsOf exShard 4 exIdx)).trace exCalls =
+    (Abs.new false (k [98]) exIdx).traceTo exCalls :=
+  (C10_seek_absolute_when_admissible exShard 4 .btree false (k [98]) exIdx (by decide) (by decide) exCalls).1
+    (by decide)
 
 end XixiKV.C10
 
